@@ -45,7 +45,7 @@ Definition set_flags (P : params) (prot nspop : bool) : params := {|
   g_reference := g_reference P; g_version := g_version P; g_slash := g_slash P; g_barth := g_barth P;
   g_nsname := g_nsname P; g_nsaffix := g_nsaffix P; g_fo_base0 := g_fo_base0 P;
   prm_leak_parent := prm_leak_parent P; prm_leak_child := prm_leak_child P;
-  prm_alias_bounded := prm_alias_bounded P; prm_ns_pop := nspop; prm_nullns := prm_nullns P |}.
+  prm_alias_bounded := prm_alias_bounded P; prm_ns_pop := nspop; prm_nullns := prm_nullns P; g_reprz := g_reprz P |}.
 
 Lemma protect_refuted : forall nspop,
   tree_plain w_prot = true /\ interp_spec_pre w_prot <> Unspec /\
@@ -113,11 +113,11 @@ Qed.
 
 (* ---- names: where _GD_BuildCode leaves the Standards ----------------- *)
 Lemma build_code_repr_refuted :
-  build_code [] [80] [83] [] [120; 46; 114] false <> spec_code true [] [80] [83] [] [120; 46; 114] false.
+  build_code [] [80] [83] [] [120; 46; 114] false false <> spec_code true [] [80] [83] [] [120; 46; 114] false false.
 Proof. vm_compute. discriminate. Qed.
 
 Lemma build_code_index_refuted :
-  build_code [] [] [] [] [120; 46; 73; 78; 68; 69; 88] false <> spec_code true [] [] [] [] [120; 46; 73; 78; 68; 69; 88] false.
+  build_code [] [] [] [] [120; 46; 73; 78; 68; 69; 88] false false <> spec_code true [] [] [] [] [120; 46; 73; 78; 68; 69; 88] false false.
 Proof. vm_compute. discriminate. Qed.
 
 Lemma alias_into_loop_diverges : forall fuel, res_alias false ents_loop fuel 0 s_z s_b = ADiverge.
